@@ -1,4 +1,8 @@
-Check (C05_step_rejected_unchanged : forall m o m' e, o <> FIN -> step m o = (m', RErr e) -> m' = m).
-Check (C05_history_without_rejected : forall ops m, run m (kept_ops m ops) = (fst (run m ops), kept_results m ops)).
-Check (C05_results_are_the_originals_minus_rejected : forall ops m, kept_results m ops = drop_rejected m ops (snd (run m ops))).
-Check (C05_fragmented_rejected_unchanged : forall m p d b s m' a c, f_write m p d b s = (m', FrErrNonMonotonic a c) -> m' = m).
+Open Scope N_scope.
+Check (C05_step_rejected_unchanged : (forall m o m' e, o <> FIN -> step m o = (m', RErr e) -> m' = m)%type).
+Check (C05_history_without_rejected : (forall ops m, run m (kept_ops m ops) = (fst (run m ops), kept_results m ops))%type).
+Check (C05_results_are_the_originals_minus_rejected : (forall ops m, kept_results m ops = drop_rejected m ops (snd (run m ops)))%type).
+Check (C05_fragmented_rejected_unchanged : (forall m p d b s m' a c, f_write m p d b s = (m', FrErrNonMonotonic a c) -> m' = m)%type).
+Check (C05_fragmented_rejected_writes_leave_no_trace : (forall ops m,
+  fst (frun m (f_kept m ops)) = fst (frun m ops) /\
+  snd (frun m (f_kept m ops)) = filter (fun r => match r with FrErrNonMonotonic _ _ => false | _ => true end) (snd (frun m ops)))%type).
